@@ -9,7 +9,7 @@ from ..gen import J, JI
 from . import lincommon as lc
 
 PROP = "C10"
-HOSTILE = ('scale',)
+HOSTILE = ('scale', 'special')
 MONITORS = ("WF", "SPEC")
 REQUIRED_MONITORS = ("WF",)
 ANCHORS = [("conditional.py", "ConditionalGaussianPDF.set_y"),
